@@ -12,7 +12,7 @@
     spec fn width_ok() -> bool;
 //@fn serialize_to_vec
 //@head{
-        ensures final(dst)@ == old(dst)@ + self.ser_spec()
+        ensures final(dst)@ =~= old(dst)@ + self.ser_spec()
 //@}
 //@fn deserialize_from_slice
 //@ret r
